@@ -803,6 +803,96 @@ Section SyncLemmas.
     rewrite candidates_no_neighbors. destruct (Nat.ltb_spec 2 (length (chain st))); [lia|reflexivity].
   Qed.
 
+  (* ---- the closing AddBlock of verify (blockchain.go:358-363) ---- *)
+
+  Lemma verify_step_appends (lh : list block) (now : Z) (i : nat) (sh : cstate) (prev : option block)
+        (b : block) (sh' : cstate) :
+    verify_step value_fn addr_of sig_ok H Se lh now i sh prev b = Ok sh' -> chain sh' = chain sh ++ [b].
+  Proof.
+    unfold verify_step. cbv zeta. intros Hs.
+    destruct (negb (hash_eqb (b_prev b) match prev with None => zero_hash | Some p => H p end));
+      [discriminate Hs|].
+    match type of Hs with
+    | match ?x with _ => _ end = _ => destruct x as [[]|e]; [|discriminate Hs]
+    end.
+    destruct i as [|i'].
+    - inversion Hs; reflexivity.
+    - unfold add_block_raw in Hs. destruct (last_block (chain sh)) as [lb|].
+      + destruct (apply_block (ur sh) (ar sh) lb) as [[u' a']|e]; [|discriminate Hs].
+        inversion Hs; reflexivity.
+      + inversion Hs; reflexivity.
+  Qed.
+
+  Lemma verify_loop_appends (lh : list block) (now : Z) : forall (l : list block) (i : nat) (sh : cstate)
+        (prev : option block) (sh' : cstate),
+    verify_loop value_fn addr_of sig_ok H Se lh now i sh prev l = Ok sh' -> chain sh' = chain sh ++ l.
+  Proof.
+    induction l as [|b r IH]; intros i sh prev sh' Hv; cbn [verify_loop] in Hv.
+    - inversion Hv; subst sh'. rewrite app_nil_r. reflexivity.
+    - destruct (verify_step value_fn addr_of sig_ok H Se lh now i sh prev b) as [sh1|e] eqn:Es;
+        [|discriminate Hv].
+      apply IH in Hv. rewrite Hv, (verify_step_appends _ _ _ _ _ _ _ Es), <- app_assoc. reflexivity.
+  Qed.
+
+  (* the block that closing AddBlock makes is dated one interval after the last answered block,
+     and AddBlock refuses a block that is not dated after the tip: with an interval that is not
+     positive no answer is ever accepted *)
+  Lemma verify_ok_interval_pos (host : cstate) (lh neigh old : list block) (now : Z) (v : list block) :
+    verify host lh neigh old now = Ok v -> (0 < s_interval Se)%Z.
+  Proof.
+    assert (Hend : forall (sh0 : cstate) (prev : option block) (b : block) (r : list block),
+               match verify_loop value_fn addr_of sig_ok H Se lh now 0 sh0 prev (b :: r) with
+               | Err e => Err e
+               | Ok sh =>
+                 match last_block (chain sh) with
+                 | None => Ok (b :: r)
+                 | Some l =>
+                   match add_block H sh (b_ts l + s_interval Se)%Z None [] with
+                   | Err e => Err e
+                   | Ok _ => Ok (b :: r)
+                   end
+                 end
+               end = Ok v -> (0 < s_interval Se)%Z).
+    { intros sh0 prev b r Hv.
+      destruct (verify_loop value_fn addr_of sig_ok H Se lh now 0 sh0 prev (b :: r)) as [sh|e] eqn:El;
+        [|discriminate Hv].
+      apply verify_loop_appends in El.
+      destruct (last_block (chain sh)) as [l|] eqn:Hlb.
+      - unfold add_block in Hv. rewrite Hlb in Hv.
+        destruct (Z.leb_spec (b_ts l + s_interval Se) (b_ts l)) as [Hle|Hlt]; [discriminate Hv | lia].
+      - exfalso. unfold last_block in Hlb.
+        destruct (rev (chain sh)) as [|x t] eqn:Er; [|discriminate Hlb].
+        assert (Ec : chain sh = []) by (rewrite <- (rev_involutive (chain sh)), Er; reflexivity).
+        rewrite Ec in El. symmetry in El. apply app_eq_nil in El. destruct El as [_ El]. discriminate El. }
+    unfold Chain.verify. intros Hv.
+    destruct neigh as [|b r]; [destruct old; discriminate|].
+    destruct old as [|o old'].
+    - destruct r as [|b' r']; [discriminate|].
+      cbv beta iota zeta in Hv. exact (Hend _ _ _ _ Hv).
+    - match type of Hv with
+      | (if ?c then _ else _) = _ => destruct c; [discriminate|]
+      end.
+      cbv beta iota zeta in Hv. exact (Hend _ _ _ _ Hv).
+  Qed.
+
+  (* hence, with such an interval, a sync round leaves the node as it was *)
+  Lemma update_nonpos_interval_kept (st : cstate) (now : Z) (nbs : list neighbor) (pref : string) :
+    (s_interval Se <= 0)%Z -> update st now nbs pref = (st, false).
+  Proof.
+    intros Hint.
+    destruct (select pref (survivors st (candidates st now nbs))) as [sel|] eqn:Es;
+      [|apply update_none_selected_kept; exact Es].
+    assert (Esel : sel = chain st).
+    { pose proof Es as Es'. apply select_spec in Es'. destruct Es' as [[t Ht] _].
+      apply survivors_incl in Ht.
+      destruct (candidates_verified _ _ _ _ _ Ht) as [(_ & Ec & _)|(nb & _ & _ & [Hi|Hf])];
+        [exact Ec | exfalso | exfalso].
+      - destruct Hi as (l & v & _ & _ & Hv & _). apply verify_ok_interval_pos in Hv. lia.
+      - destruct Hf as (l & v & _ & Hv & _). apply verify_ok_interval_pos in Hv. lia. }
+    subst sel. apply (update_identical_kept _ _ _ _ _ Es); [apply le_n|].
+    intros a b Ha Hb. rewrite Ha in Hb. inversion Hb. reflexivity.
+  Qed.
+
 End SyncLemmas.
 
 (* ------------------------------------------------------------------ *)
